@@ -36,7 +36,7 @@ func chars(s string) []string {
 var (
 	xgElemNames = []xName{{"", chars("a")}, {"", chars("B")}, {"", chars("a-b")}, {"", chars("A_b")}, {"ns", chars("b")}, {"", chars("item")}, {"", chars("Item")}, {"", chars("c")}}
 	// attribute names stay distinct under every key folding (the decoder's documented domain)
-	xgAttrNames = []xName{{"", chars("x")}, {"", chars("Yy")}, {"", chars("k-z")}, {"", chars("n_m")}}
+	xgAttrNames = []xName{{"", chars("x")}, {"", chars("Yy")}, {"", chars("k-z")}, {"", chars("n_m")}, {"p", chars("note")}, {"xml", chars("lang")}}
 	xgAttrVals  = []string{"1", " &", "", "v", "'\"", "a b", "<", "q>", "\"", "say \"hi\"", "'"}
 	xgTexts     = []string{"v", " v ", "7", "<&", "a b", "x>y", "t", "\tw\n", "it's"}
 )
@@ -206,8 +206,18 @@ func observeXml(kind string, d *xNode, variant int) map[string]interface{} {
 			var sb strings.Builder
 			d.render(&sb, variant%2)
 			doc := []byte(sb.String())
-			ms, err := mxj.NewMapXmlSeqReader(hideByteReader{bytes.NewReader(doc)})
-			ev := map[string]interface{}{"op": "seq", "d": d, "err": cls(err), "r": tagged.FromGo(map[string]interface{}{}), "x": "", "encerr": "ok"}
+			// the reader form, on a stream of TWO copies of the document over a reader that only has Read: each call takes one
+			rd := hideByteReader{bytes.NewReader(append(append(append([]byte{}, doc...), '\n'), doc...))}
+			ms, err := mxj.NewMapXmlSeqReader(rd)
+			ev := map[string]interface{}{"op": "seq", "d": d, "err": cls(err), "r": tagged.FromGo(map[string]interface{}{}), "x": "", "encerr": "ok", "twice": "ok"}
+			if err == nil {
+				ms2, err2 := mxj.NewMapXmlSeqReader(rd)
+				if err2 != nil {
+					ev["twice"] = "err"
+				} else if tagged.CanonGo(map[string]interface{}(ms2)) != tagged.CanonGo(map[string]interface{}(ms)) {
+					ev["twice"] = "differs"
+				}
+			}
 			if err == nil {
 				ev["r"] = tagged.FromGo(map[string]interface{}(ms))
 				cv := mxj.VerifOptions()["checkValid"].(bool)
